@@ -1455,7 +1455,7 @@ func gen(r *vh.Rand, tier string) []string {
 			}
 		}
 		// the REAL JSON decode provider (provider.NewJSONProvider) on data sources of every kind: one that can be sought /
-		// cannot / hands its last data out together with io.EOF, long and short reads; data that is healthy, holds an
+		// cannot / hands its last data out together with io.EOF (and cannot / can be sought), long and short reads; data that is healthy, holds an
 		// object that does not decode (first / in the middle / the very last thing), or holds white space only (or
 		// nothing); every passes (0 = unlimited) and limit; the schedule is unlimited: only the provider ends the pool
 		jdCase := func(poison string, passes, limit int, style string, k, m int) {
@@ -1467,7 +1467,7 @@ func gen(r *vh.Rand, tier string) []string {
 			}
 			out = append(out, line)
 		}
-		for _, style := range []string{"f", "n", "e"} {
+		for _, style := range []string{"f", "n", "e", "s"} {
 			// white space only / nothing at all: under every passes, with and without a limit
 			for _, passes := range []int{0, 0, 1, 2, r.Range(3, 5)} {
 				jdCase("blank", passes, r.PickInt([]int{0, 0, r.Range(1, 4)}), style, r.PickInt([]int{0, 1, 1, 2, 3, 7}), 0)
@@ -1492,7 +1492,7 @@ func gen(r *vh.Rand, tier string) []string {
 				passes := r.PickInt([]int{0, 1, 1, 2, 3})
 				limit := 0
 				switch {
-				case passes == 0 && style == "f":
+				case passes == 0 && (style == "f" || style == "s"):
 					limit = r.Range(1, 14)
 				case r.Chance(1, 3):
 					limit = r.PickInt([]int{1, k, k + m, k + m + 1, 2*(k+m) + 1, r.Range(1, 14)})
